@@ -19,11 +19,11 @@ import (
 // Clause is one requires/ensures/invariant/axiom expression.
 type Clause struct {
 	Assumed bool
-	Tags  []string
-	Label string
-	Expr  ast.Expr
-	Src   string
-	Pos   string
+	Tags    []string
+	Label   string
+	Expr    ast.Expr
+	Src     string
+	Pos     string
 }
 
 type LoopCon struct {
@@ -40,29 +40,29 @@ type LetDef struct {
 }
 
 type Contract struct {
-	Name     string
-	PkgPath  string
-	Fn       *ssa.Function
-	Trusted  bool // assumed, never verified (dependency or environment)
-	IfaceKey string
-	Requires []Clause
-	Ensures  []Clause
-	Lets     []LetDef
-	Modifies []ast.Expr
-	ModGiven bool
-	ModAll   bool
-	ModHeap  bool // modifies allheap: every component except ghost (GH.*) and channel (CN.*, CL.*) state
-	Loops    map[int]*LoopCon
-	Safety   []string // property tags that the no-panic obligations of this function carry; nil = safety off
-	SafetyOn bool
-	Params   []string // for iface / trusted contracts without SSA body: parameter names
-	Pos      string
-	NoInline bool
-	Lock     string // informational
-	AssumePre []string // labels of callee preconditions that are environment assumptions in this function (e.g. conformant traffic)
-	Reveal   map[string]bool // opaque specification functions whose definition this function's proof may use
-	Lemmas   []Lemma // intermediate assertions proved just before the listed calls and assumed afterwards
-	SortLen  int    // sortlen 3: sort.Sort calls in this function sort exactly three elements (checked)
+	Name      string
+	PkgPath   string
+	Fn        *ssa.Function
+	Trusted   bool // assumed, never verified (dependency or environment)
+	IfaceKey  string
+	Requires  []Clause
+	Ensures   []Clause
+	Lets      []LetDef
+	Modifies  []ast.Expr
+	ModGiven  bool
+	ModAll    bool
+	ModHeap   bool // modifies allheap: every component except ghost (GH.*) and channel (CN.*, CL.*) state
+	Loops     map[int]*LoopCon
+	Safety    []string // property tags that the no-panic obligations of this function carry; nil = safety off
+	SafetyOn  bool
+	Params    []string // for iface / trusted contracts without SSA body: parameter names
+	Pos       string
+	NoInline  bool
+	Lock      string          // informational
+	AssumePre []string        // labels of callee preconditions that are environment assumptions in this function (e.g. conformant traffic)
+	Reveal    map[string]bool // opaque specification functions whose definition this function's proof may use
+	Lemmas    []Lemma         // intermediate assertions proved just before the listed calls and assumed afterwards
+	SortLen   int             // sortlen 3: sort.Sort calls in this function sort exactly three elements (checked)
 }
 
 // Lemma: `lemma [label] before F, G: P` - P (over parameters, lets and old state) is proved in the state just before
@@ -116,13 +116,13 @@ type PureFunc struct {
 }
 
 type ContractTable struct {
-	ByFunc  map[*ssa.Function]*Contract
-	Iface   map[string]*Contract   // "pkgpath.Iface.Method"
-	Pure    map[string]*PureFunc   // pkgPath + "::" + name
-	Axioms  map[string][]Clause    // per package
-	Files   []string
-	Assumed []string // textual list of every trusted / iface / axiom / assume line (scan)
-	Static  []*StaticCheck
+	ByFunc   map[*ssa.Function]*Contract
+	Iface    map[string]*Contract // "pkgpath.Iface.Method"
+	Pure     map[string]*PureFunc // pkgPath + "::" + name
+	Axioms   map[string][]Clause  // per package
+	Files    []string
+	Assumed  []string // textual list of every trusted / iface / axiom / assume line (scan)
+	Static   []*StaticCheck
 	FuncType map[string]*Contract // named function type -> assumed contract of every value of that type
 }
 
@@ -729,4 +729,3 @@ func cutTopLevel(s, op string) (string, string, bool) {
 	}
 	return "", "", false
 }
-
